@@ -75,11 +75,17 @@ void harness(void) {
       CHECK(rc == EXIT_SUCCESS || rc == EXIT_FAILURE, "documented return value");
       frame(entry, (long)n, "assemble");
       break; }
-    case 3: { /* counting call: documented for instances without fitting */
-      ASSUME(fit_c == 0);
+    case 3: { /* counting call */
+#ifdef MODE_C07
+      ASSUME(fit_c == 0);           /* documented for instances without fitting */
+#endif
 #ifdef CFIX
-      ASSUME(a == CFIX || a < 2);
-      if (a >= 2) a = CFIX;
+      /* the counting call's own chunk size: CFIX, or another constant CFIX2 */
+#ifndef CFIX2
+#define CFIX2 CFIX
+#endif
+      ASSUME(a == CFIX || a == CFIX2 || a < 2);
+      if (a >= 2) a = (a == CFIX2) ? CFIX2 : CFIX;
 #endif
       ASSUME(a <= CMAX);
       long entry = asm_get_offset(al);
